@@ -872,6 +872,8 @@ class BitVec:
         if k == 'bin':
             op = x[1]
             ty = x[4]
+            if ty in ('f32', 'f64') or ty_of(x[2]) in ('f32', 'f64'):
+                raise Uncertified("bit-vector of floating-point arithmetic")
             if op in ('BitAnd', 'BitOr', 'BitXor'):
                 a, b = self.bv(x[2]), self.bv(x[3])
                 f = {'BitAnd': lambda p, q: b_and([p, q]), 'BitOr': lambda p, q: b_or([p, q]), 'BitXor': b_xor}[op]
